@@ -30,7 +30,7 @@ var c07Invalid = []string{
 	"LGDT [nosuch]", "INT nosuch", "IN AL,nosuch", "OUT nosuch,AL", "DW fin+nosuch", "MOV AX,nosuch+1",
 	"MOV AX,EBX", "MOV AL,BX", "ADD AL,BX", "MOV CS,AX", "MOV ES,DS", "MOV CR0,AX", "PUSH AL", "POP AL", "IN BX,DX", "OUT DX,BX",
 	"MOV 1,AX", "ADD 1,AX", "MOV [BX],[SI]", "ADD [BX],[SI]", "MOV AX,\"ab\"", "DW \"ab\"", "RESB -1", "ALIGNB 0", "ALIGNB -4",
-	"MOV [AX],BX", "MOV AX,[BX+CX]", "MOV AX,[ESP*2]", "MOV EAX,[EBX*3]", "INT 256", "INT -1", "SHL AX,BX", "RET AX",
+	"MOV [AX],BX", "MOV AX,[BX+CX]", "MOV AX,[SI+DI]", "MOV AX,[SI+BX]", "ADD [DI+SI],CX", "CMP BYTE [SI+DI+4],1", "MOV AX,[AX+SI]", "MOV AX,[DI+BP]", "MOV AX,[ESP*2]", "MOV EAX,[EBX*3]", "INT 256", "INT -1", "SHL AX,BX", "RET AX",
 }
 
 func embed(stmt string, mode int) string {
